@@ -1,7 +1,7 @@
 (** C13 — Operator stop is final until operator start. *)
 From YV Require Import lib.Base model.YWorld model.YProto gen.Consts gen.FsmGen model.YFraming
   model.YSession proof.SessionFraming proof.SessionC13 proof.SessionC12 proof.SessionRP proof.SessionSR
-  proof.SessionSR6 proof.SessionSR7.
+  proof.SessionSR6 proof.SessionSR7 proof.SessionAuto.
 
 (** what a manual stop does, in any world whose timers are well formed (an invariant, see
     [timers_wf_prims]): Idle, automatic start forbidden, every timer cancelled, counter reset *)
@@ -108,3 +108,11 @@ Example C13_stop_reaches_stopped_example :
   w_state (run Dk (world0 cf0 []) (EBoot :: es)) = StEstablished /\
   forallb (fun k => negb (cst_eqb (c_st k) CConnecting)) (w_conns (run Dk (world0 cf0 []) (EBoot :: es))) = true.
 Proof. vm_compute. repeat split. Qed.
+
+(** conversely, only the operator stops the agent: along any event sequence without a manual
+    stop (any peer input, connection event, timer expiry, API send, manual starts) automatic
+    restart stays allowed *)
+Theorem C13_only_operator_stops : forall (D : decoders) es w,
+  ~ In EManualStop es -> w_auto w = true -> w_auto (run D w es) = true.
+Proof. exact auto_only_operator. Qed.
+Print Assumptions C13_only_operator_stops.
